@@ -4,7 +4,7 @@
    `Reach c s`: s is reachable from the fresh connection by ANY sequence of enabled events (reads with any parse
    items, handler starts/ends of every kind, clock advances, peer close) under ANY configuration c. *)
 From Coq Require Import Sorted.
-From AV Require Import Lib.Base Generated.ServerGen Model.ServerConn Proofs.ServerConnInv Proofs.ServerConnOrder Proofs.ServerConnExamples.
+From AV Require Import Lib.Base Generated.ServerGen Model.ServerConn Proofs.ServerConnInv Proofs.ServerConnOrder Proofs.ServerConnTail Proofs.ServerConnExamples.
 Open Scope N_scope.
 
 (* The queue never holds more than MAX+1 parsed-but-unhandled requests, and the parser never counts more than MAX
@@ -26,6 +26,20 @@ Theorem C05_never_orphaned : forall c s, Reach c s ->
   (closed s = false -> pc s <> PExit) /\ (pc s = PWait -> q s = []) /\ forcef s = closed s.
 Proof. exact never_orphaned. Qed.
 Print Assumptions C05_never_orphaned.
+
+(* Pause/resume loses nothing: reading is paused only while more than the resume mark of items are queued (so a
+   handler is running or about to be started), and when start() waits for input on an open connection the queue is
+   empty, the transport is reading, and the parser's tail holds no item it could still parse.  Together with
+   C05_never_orphaned: an open connection never sits idle with a received-but-unanswered request. *)
+Theorem C05_paused_has_work : forall c s, Reach c s -> paused s = true ->
+  msg_queue_resume_size MAX_MSG_QUEUE_SIZE < lenN (q s).
+Proof. exact paused_has_work. Qed.
+Print Assumptions C05_paused_has_work.
+
+Theorem C05_idle_means_drained : forall c s, Reach c s -> closed s = false -> pc s = PWait ->
+  q s = [] /\ p_tail (ps s) = [] /\ paused s = false.
+Proof. exact idle_means_drained. Qed.
+Print Assumptions C05_idle_means_drained.
 
 (* Unparsable input: however the application ends the handler of the queued _ErrInfo request, the loop ends and the
    transport is closed ... *)
